@@ -286,6 +286,8 @@ func runCase(t *rapid.T, replay *caseData) {
 		step := int64(1)
 		if strings.HasSuffix(target, "state.bin") && size > 40 {
 			step = size / 20
+		} else if !evidence.Thorough() && size > 24 {
+			step = size / 12 // quick tier: a dozen prefix lengths of the manifest; thorough: every byte
 		}
 		for cut := int64(0); cut < size; cut += step {
 			dir := filepath.Join(root, "partial")
